@@ -13,13 +13,13 @@ import (
 // test of i+j against len(s) dominates the read.  With a stride of two over a list of coordinates, s[i+1] under
 // `i < len(s)` reads past the end when the list has an odd length (`points="0,0 10,10 20"`).
 func c07StridedLoops(c *core.Check) {
-	r := c.Rule("R13", "strided reads stay inside the list: in every loop of the module whose condition is `i + c < len(s)` for a loop counter i, each read s[i + j] (j a constant) in the loop has j <= c, or is dominated by a comparison of i + j' (j' >= j) with len(s), or the loop is entered under len(s) % stride == e with a start that leaves more than j elements", 20)
+	r := c.Rule("R13", "strided reads stay inside the list: in every loop of the module whose condition is `i + c < len(s)` for a loop counter i, each read s[i + j] (j a constant) in the loop has j <= c, or is dominated by a comparison of i + j' (j' >= j) with len(s), or the loop is entered under len(s) % stride == e with a start that leaves more than j elements", 695)
 	stridedLoopsRule(c, r)
 }
 
 // c01StridedLoops (R24): the same obligation under crash-freedom (the SVG and CSS parsers are reached from documents).
 func c01StridedLoops(c *core.Check) {
-	r := c.Rule("R24", "no read past the end in strided loops: in every loop of the module whose condition is `i + c < len(s)`, each read s[i + j] has j <= c, or a further comparison with len(s), or a congruence of len(s) modulo the stride established before the loop (shared with C07.R13)", 20)
+	r := c.Rule("R24", "no read past the end in strided loops: in every loop of the module whose condition is `i + c < len(s)`, each read s[i + j] has j <= c, or a further comparison with len(s), or a congruence of len(s) modulo the stride established before the loop (shared with C07.R13)", 695)
 	stridedLoopsRule(c, r)
 }
 
